@@ -237,6 +237,21 @@ func (l *Log) AttBefore(i int) *world.AttState {
 	return nil
 }
 
+// PolicyAsOf / AttAsOf: the state introduced by the last such entry among the first n entries.
+func (l *Log) PolicyAsOf(n int) *world.PolicySpec {
+	if n > len(l.entries()) {
+		n = len(l.entries())
+	}
+	return l.PolicyBefore(n)
+}
+
+func (l *Log) AttAsOf(n int) *world.AttState {
+	if n > len(l.entries()) {
+		n = len(l.entries())
+	}
+	return l.AttBefore(n)
+}
+
 // Revoked: some annotation anywhere later in the log with skip=true names the entry.
 func (l *Log) Revoked(i int) bool {
 	id := l.entries()[i].ID
@@ -274,10 +289,12 @@ func (l *Log) treeOfTarget(target string) string {
 }
 
 // SignersFor collects who vouched for entry i's change.
-func (l *Log) SignersFor(i int) Signers {
+func (l *Log) SignersFor(i int) Signers { return l.SignersForAtt(i, l.AttBefore(i)) }
+
+// SignersForAtt is SignersFor with the attestation state given explicitly.
+func (l *Log) SignersForAtt(i int, att *world.AttState) Signers {
 	e := l.entries()[i]
 	s := Signers{ObjectKey: e.Signer, EnvelopeKeys: map[int]bool{}, Approvers: map[string]map[string]bool{}}
-	att := l.AttBefore(i)
 	if att == nil {
 		return s
 	}
@@ -309,15 +326,19 @@ func (l *Log) SignersFor(i int) Signers {
 
 // Decide judges entry i (a reference or propagation entry for a user ref)
 // against the policy and attestations in force immediately before it.
-func (l *Log) Decide(i int) Decision {
+func (l *Log) Decide(i int) Decision { return l.DecideUnder(i, l.PolicyBefore(i), l.AttBefore(i)) }
+
+// DecideUnder judges entry i against a given policy and attestation state
+// (what the verdict would be if a verifier used those instead of the ones in
+// force: used to tell what a stale lookup can and cannot explain).
+func (l *Log) DecideUnder(i int, p *world.PolicySpec, att *world.AttState) Decision {
 	e := l.entries()[i]
-	p := l.PolicyBefore(i)
 	if p == nil {
 		return Decision{Why: "no policy in force"}
 	}
 	path := "git:" + e.Ref
 	vs := Walk(p, path)
-	s := l.SignersFor(i)
+	s := l.SignersForAtt(i, att)
 	// code-review approvals count only from trusted apps whose attestation was signed by the app's key
 	trusted := map[string]bool{}
 	for _, a := range p.Apps {
